@@ -15,6 +15,7 @@ import Driver.CmdProto
 import Driver.Asm
 import Driver.Enc
 import Driver.FlagH
+import Driver.SrcH
 open Lace Lace.Driver
 
 /-- `X02 stackOn minimal instr <machine> inp-hex`
@@ -90,6 +91,8 @@ def handle (line : String) : String :=
   | "F18" :: rest => handleF18 rest
   | "R18" :: rest => handleR18 rest
   | "P18" :: rest => handleP18 rest
+  | "E15" :: rest => handleSrc "E15" rest
+  | "V17" :: rest => handleSrc "V17" rest
   | _ => "bad-request"
 
 partial def loop (h : IO.FS.Stream) (out : IO.FS.Stream) : IO Unit := do
